@@ -69,6 +69,9 @@ pub struct Case {
     /// direct-to-parser strings (C15 sub-part)
     #[serde(default)]
     pub parser_inputs: Vec<String>,
+    /// C16 diagnostic clause: where the fault was injected
+    #[serde(default)]
+    pub diag: Option<crate::diag::DiagSpec>,
     #[serde(default)]
     pub expect: Option<Expect>,
 }
@@ -89,6 +92,7 @@ impl Case {
             program: None,
             multi: None,
             parser_inputs: vec![],
+            diag: None,
             expect: None,
         }
     }
